@@ -2518,3 +2518,62 @@ Proof.
   - apply (ss_rev_flip (fun a b => b <= a)). apply Hmap. intros x y H. unfold nb in H. simpl in H.
     apply Qltb_false in H. exact H.
 Qed.
+
+(* ---- boolean versions of [consecutive] / [proto_from], used by the correspondence driver to check that
+        the sequences a protocol-following harness produces satisfy the hypotheses of the trace theorems ---- *)
+Definition report_ok_b (st : state) (last : list (Z * Z)) (ev : event) : bool :=
+  match ev with
+  | Report t r _ _ _ => if is_running st t then Z.eqb r (lastv t last + 1) else true
+  | _ => true
+  end.
+(* [ckpt]: resumed trials continue after resume_from (true) or restart at 1 (false) *)
+Fixpoint consecutive_b (cfg : config) (ckpt : bool) (st : state) (last : list (Z * Z)) (evs : list event) : bool :=
+  match evs with
+  | [] => true
+  | ev :: rest =>
+      report_ok_b st last ev &&
+      match step cfg st ev with
+      | Err _ => true
+      | Ok (st', o) =>
+          match ev, o with
+          | Report t r _ _ _, _ => consecutive_b cfg ckpt st' (update t r last) rest
+          | _, OStart t _ => consecutive_b cfg ckpt st' (update t 0%Z last) rest
+          | _, OResume t _ _ _ from _ =>
+              consecutive_b cfg ckpt st' (update t (if ckpt then from else 0%Z) last) rest
+          | _, _ => consecutive_b cfg ckpt st' last rest
+          end
+      end
+  end.
+
+Lemma consecutive_b_sound cfg ckpt : forall evs st last,
+  consecutive_b cfg ckpt st last evs = true -> consecutive cfg st last evs.
+Proof.
+  induction evs as [|ev rest IH]; intros st last H; simpl in *; [exact I|].
+  apply andb_true_iff in H as [Hok H]. split.
+  - destruct ev; simpl in *; auto. intro Hr. rewrite Hr in Hok. lia.
+  - destruct (step cfg st ev) as [[st' o]|]; [|exact I].
+    destruct ev; destruct o; auto.
+    all: destruct ckpt; auto.
+Qed.
+
+Definition proto_ok_b (st : state) (ev : event) : bool :=
+  match ev with
+  | Complete t | Fail t => is_running st t
+  | _ => true
+  end.
+Fixpoint proto_b (cfg : config) (st : state) (evs : list event) : bool :=
+  match evs with
+  | [] => true
+  | ev :: rest => proto_ok_b st ev &&
+                  match step cfg st ev with Ok (st', _) => proto_b cfg st' rest | Err _ => true end
+  end.
+
+Lemma proto_b_sound cfg : forall evs st, proto_b cfg st evs = true -> proto_from cfg st evs.
+Proof.
+  induction evs as [|ev rest IH]; intros st H; simpl in *; [exact I|].
+  apply andb_true_iff in H as [Hok H]. split.
+  - destruct ev; simpl in *; auto; unfold is_running in Hok;
+      (destruct (lookup t (st_active st)) as [ti|]; [|discriminate]); exists ti; (split; [reflexivity|]);
+      destruct (ti_dec ti); try discriminate; reflexivity.
+  - destruct (step cfg st ev) as [[st' o]|]; auto.
+Qed.
